@@ -1148,9 +1148,15 @@ private:
 	{
 		const HashTraits& hashTraits = GetHashTraits();
 		size_t newLogBucketCount = pvGetNewLogBucketCount();
-		size_t newCapacity = hashTraits.CalcCapacity(size_t{1} << newLogBucketCount,
-			bucketMaxItemCount);
-		MOMO_CHECK(newCapacity > mCount);
+		size_t newCapacity;
+		while (true)
+		{
+			newCapacity = hashTraits.CalcCapacity(size_t{1} << newLogBucketCount,
+				bucketMaxItemCount);
+			if (newCapacity > mCount)
+				break;
+			++newLogBucketCount;	// the table may be overloaded (overloadIfCannotGrow)
+		}
 		bool hasBuckets = (mBuckets != nullptr);
 		Buckets* newBuckets;
 		try
